@@ -168,6 +168,7 @@ func (vc *FuncVC) preRegisterLogs() {
 						vc.logTypes[comp] = b.Type()
 					}
 					vc.closureOf[w.Label] = fn
+					vc.closureMC[w.Label] = mc
 					comp := vc.logComp("", w.Label, "r0", SInt)
 					vc.logTypes[comp] = mc.Type()
 					vc.logComp("", w.Label, "time", SInt)
@@ -366,6 +367,17 @@ func (vc *FuncVC) opaqueCall(name, kind string, sig *types.Signature) *Val {
 func (vc *FuncVC) havocOpaque(tag string) {
 	pre := vc.cur
 	vc.cur = pre.havoc(tag)
+	// closures created by this function that escape (passed to callees, stored, returned)
+	// may be run by any opaque callee: their writes are part of its effect
+	if comps, total := vc.escapingClosureWrites(); total {
+		vc.cur.havocTotal = true
+		vc.note("an escaping closure of this function calls other code: opaque calls havoc every heap component")
+	} else if len(comps) > 0 {
+		vc.cur.only = map[string]bool{}
+		for _, c := range comps {
+			vc.cur.only[c] = true
+		}
+	}
 	// objects allocated here whose address has not escaped yet are out of the callee's reach
 	if vc.curInstr != nil {
 		for _, a := range vc.unescapedAllocs(vc.curInstr) {
@@ -527,11 +539,11 @@ func (vc *FuncVC) applyContract(con *Contract, name string, fn *ssa.Function, si
 	if fn != nil {
 		if mc, ok := c.Value.(*ssa.MakeClosure); ok {
 			for i, fv := range fn.FreeVars {
-				env.vars[fv.Name()] = &CVal{T: vc.term(mc.Bindings[i]), Typ: fv.Type(), IsCell: true}
+				env.vars[fv.Name()] = &CVal{T: vc.term(mc.Bindings[i]), Typ: fv.Type(), IsCell: true, Suffix: vc.localSuffix(mc.Bindings[i])}
 			}
 		} else if v := vc.val(c.Value); v != nil && v.Clo != nil {
 			for i, fv := range fn.FreeVars {
-				env.vars[fv.Name()] = &CVal{T: vc.term(v.Clo.Bindings[i]), Typ: fv.Type(), IsCell: true}
+				env.vars[fv.Name()] = &CVal{T: vc.term(v.Clo.Bindings[i]), Typ: fv.Type(), IsCell: true, Suffix: vc.localSuffix(v.Clo.Bindings[i])}
 			}
 		}
 	}
@@ -1114,6 +1126,15 @@ func (vc *FuncVC) prescanLoops() {
 				vc.prescanInstr(li, in)
 			}
 		}
+		if li.havoc {
+			comps, total := vc.escapingClosureWrites()
+			for _, c := range comps {
+				li.modset[c] = true
+			}
+			if total {
+				vc.note("loop %d contains opaque calls and an escaping closure with unknown effects: protected components are not havoc'd at the loop head (unsound if the closure runs in the loop)", li.ordinal)
+			}
+		}
 	}
 }
 
@@ -1426,4 +1447,88 @@ func (vc *FuncVC) stableFormula(d string, st *State) Term {
 		cs = append(cs, Eq(vc.loadLoc(st, l), vc.loadLoc(entry, l)))
 	}
 	return And(cs...)
+}
+
+// escapingClosureWrites: the heap components written by closures of this function
+// whose value is used other than by calling it directly. total=true when such a
+// closure calls further code (its effect is then unknown).
+func (vc *FuncVC) escapingClosureWrites() (comps []string, total bool) {
+	if vc.cloWritesDone {
+		return vc.cloWrites, vc.cloTotal
+	}
+	vc.cloWritesDone = true
+	set := map[string]bool{}
+	for _, b := range vc.Fn.Blocks {
+		for _, in := range b.Instrs {
+			mc, ok := in.(*ssa.MakeClosure)
+			if !ok {
+				continue
+			}
+			escapes := false
+			if refs := mc.Referrers(); refs != nil {
+				for _, r := range *refs {
+					switch u := r.(type) {
+					case *ssa.DebugRef:
+					case ssa.CallInstruction:
+						if u.Common().Value != mc {
+							escapes = true
+						}
+						if _, isDefer := r.(*ssa.Defer); isDefer && u.Common().Value == mc {
+							// deferred direct call: executed by RunDefers, modelled there
+						}
+						if _, isGo := r.(*ssa.Go); isGo {
+							escapes = true
+						}
+					default:
+						escapes = true
+					}
+				}
+			}
+			if !escapes {
+				continue
+			}
+			fn := mc.Fn.(*ssa.Function)
+			for _, fb := range fn.Blocks {
+				for _, fi := range fb.Instrs {
+					switch x := fi.(type) {
+					case *ssa.Store:
+						for _, c := range vc.storeComps(x.Addr) {
+							set[c] = true
+						}
+					case *ssa.MapUpdate:
+						dc, vn := vc.mapComps(x.Map.Type().Underlying().(*types.Map))
+						set[dc], set[vn] = true, true
+					case ssa.CallInstruction:
+						if bi, ok := x.Common().Value.(*ssa.Builtin); ok {
+							switch bi.Name() {
+							case "append", "copy":
+								elem := x.Common().Args[0].Type().Underlying().(*types.Slice).Elem()
+								if isStruct(elem) {
+									for _, c := range vc.leafComps(elem, "") {
+										set[c] = true
+									}
+								} else {
+									set[vc.elemComp(elem)] = true
+								}
+							case "delete":
+								dc, _ := vc.mapComps(x.Common().Args[0].Type().Underlying().(*types.Map))
+								set[dc] = true
+							}
+							continue
+						}
+						name, _, _ := vc.calleeName(x.Common())
+						if con := vc.P.CS.Funcs[name]; con != nil && (con.Pure || (con.HasAssgn && len(con.Assigns) == 0)) {
+							continue
+						}
+						if _, ok := vc.libCall0(name); ok {
+							continue
+						}
+						vc.cloTotal = true
+					}
+				}
+			}
+		}
+	}
+	vc.cloWrites = sortedKeys(set)
+	return vc.cloWrites, vc.cloTotal
 }
